@@ -779,7 +779,7 @@ func cmdReplay(args []string) int {
 		fmt.Fprintln(os.Stderr, "usage: gv replay <path>")
 		return 2
 	}
-	path := args[0]
+	path, _ := filepath.Abs(args[0])
 	data, err := os.ReadFile(path)
 	if err != nil {
 		fmt.Fprintln(os.Stderr, err)
